@@ -246,6 +246,36 @@ func ruleR8(c *Ctx) *RuleResult {
 						inserts = append(inserts, in)
 						continue
 					}
+					// the inner container's insertion method, called on the field that one of the receiver's own insertion
+					// methods purely forwards to with that same callee (Enqueue ≡ heap.Push): the same insertion path
+					if cal != nil && len(call.Call.Args) > 0 && token.IsExported(cal.Name()) && insertionNames[cal.Name()] {
+						if f, okf := recvField(fn, call.Call.Args[0]); okf {
+							same := false
+							for nm, m := range methodsOf(p, ct) {
+								if !insertionNames[nm] || !token.IsExported(nm) {
+									continue
+								}
+								if fw := forwardInfo(m); fw != nil && fw.Field == f && origin(fw.Callee) == origin(cal) {
+									same = true
+								}
+							}
+							if same {
+								inserts = append(inserts, in)
+								continue
+							}
+						}
+					}
+					// Clear of that same field when the receiver's own Clear forwards to it
+					if cal != nil && len(call.Call.Args) > 0 && cal.Name() == "Clear" {
+						if f, okf := recvField(fn, call.Call.Args[0]); okf {
+							if own := methodsOf(p, ct)["Clear"]; own != nil {
+								if fw := forwardInfo(own); fw != nil && fw.Field == f && origin(fw.Callee) == origin(cal) {
+									clears = append(clears, in)
+									continue
+								}
+							}
+						}
+					}
 				}
 				// a container whose Put is nothing but recv.F[key] = value (decided from Put's own normal form) may be filled by
 				// maps.Copy(recv.F, decoded) or by assigning into recv.F directly: the same map operation per entry
